@@ -36,6 +36,7 @@ def plan(tier, seed):
     specs.append({"kind": "values", "count": 300 if q else 8000})
     specs.append({"kind": "same_file", "count": 30 if q else 600})
     specs.append({"kind": "cli_session", "count": 12 if q else 300})
+    specs.append({"kind": "neighbours", "count": 12 if q else 300})
     return specs
 
 
@@ -465,6 +466,74 @@ def run_values(spec, rec, lib):
             rec.count("value_roundtrips")
 
 
+def run_neighbours(spec, rec, lib):
+    """the file a caller names is the whole story: a directory full of NEIGHBOURS of that name (name + every suffix the library's
+    code mentions and the usual editor / tool leftovers; hidden and prefixed variants), holding stale material from an earlier
+    version of the same document (its signature map, the whole earlier envelope, junk), changes nothing about what an ordinary
+    write stores and what a load returns - and the neighbours themselves are left alone"""
+    from ..gen import vocab
+
+    rng = random.Random(spec["seed"])
+    C, A = lib.common, lib.authentication
+    suffixes = vocab.learn(lib.pkg_dir)["suffixes"]
+    rec.count("file_suffixes_learned_from_library_code", len(suffixes))
+    vfp = boundary.value_fingerprint
+    for i in range(spec["count"]):
+        d = os.path.join(spec["scratch"], "nb%d" % i)
+        os.makedirs(d, exist_ok=True)
+        name = rng.choice(["4.root.json", "key_mgr.json", "doc.json", "doc", "re\u0301po.json"])
+        ks = [gkeys.key(j) for j in rng.sample(range(8), rng.randint(1, 3))]
+        gpg = rng.random() < 0.5
+        v = rng.randint(1, 9)
+        old = gmd.sign_env(gmd.envelope(gmd.root_md(v, ks, 1, [gkeys.key(9)], 1)), ks, gpg, rng)
+        new = gmd.sign_env(gmd.envelope(gmd.root_md(v + 1, ks, len(ks), [gkeys.key(10)], 1)), ks, gpg, rng)
+        stale = [canonjson.canon(old["signatures"]), canonjson.canon(old), canonjson.canon({"signatures": old["signatures"]}),
+                 json.dumps(old["signatures"]).encode(), canonjson.canon({"signed": old["signed"]}), b"", b"\x00\xff junk", b"{}", b"[]",
+                 canonjson.canon({k: {"signature": "00" * 64} for k in old["signatures"]})]
+        fn = os.path.join(d, name)
+        nbs = {}
+        for sfx in suffixes:
+            for nb in (name + sfx, "." + name + sfx, name.rsplit(".", 1)[0] + sfx, sfx.lstrip(".") + "." + name):
+                if nb != name and nb not in nbs:
+                    nbs[nb] = stale[(len(nbs) + i) % len(stale)]
+        for nb, content in nbs.items():
+            with open(os.path.join(d, nb), "wb") as f:
+                f.write(content)
+        if rng.random() < 0.5:
+            with open(fn, "wb") as f:
+                f.write(canonjson.canon(old))  # the earlier version sits under the name itself
+        listing_before = set(os.listdir(d)) | {name}
+        case = {"kind": "neighbours", "name": name, "n_neighbours": len(nbs), "value": new}
+        w = boundary.call(lib, C.write_metadata_to_file, copy.deepcopy(new), fn)
+        l = boundary.call(lib, C.load_metadata_from_file, fn) if w.accepted else w
+        rec.case("neighbours|%s|%d|%s" % (name, len(ks), gpg))
+        rec.count("writes_among_neighbours")
+        if not l.accepted:
+            rec.violation(boundary.mechanism("roundtrip", "write+load[among-neighbours]", "value", l), "write/load failed in a directory holding neighbours of the name", case)
+            continue
+        fb = open(fn, "rb").read()
+        if fb != canonjson.canon(new):
+            rec.violation("file-bytes/write_metadata_to_file/not-canonical-bytes-of-value/among-neighbours", "file bytes differ from the canonical bytes of the value written", case)
+        if vfp(l.value) != vfp(new):
+            diff = [k for k in new["signatures"] if l.value.get("signatures", {}).get(k) != new["signatures"][k]] if isinstance(l.value, dict) else "?"
+            rec.violation("roundtrip/load_metadata_from_file/loaded-value-differs/among-neighbours",
+                          "the value loaded from %r differs from the value just written to it (entries differing: %s); neighbours present: %s"
+                          % (name, diff, sorted(nbs)[:6]), case)
+        else:
+            o = boundary.call(lib, A.verify_signable, l.value, [k.hex for k in ks], len(ks), gpg=gpg)
+            if not o.accepted:
+                rec.violation(boundary.mechanism("roundtrip", "verify_signable[loaded-among-neighbours]", "accept", o), "loaded document no longer verifies", case)
+        listing_after = set(os.listdir(d))
+        if listing_after != listing_before:
+            rec.violation("file-name/write_metadata_to_file/directory-listing-changed/among-neighbours",
+                          "directory gained %r, lost %r" % (sorted(listing_after - listing_before), sorted(listing_before - listing_after)), case)
+        touched = [nb for nb, content in nbs.items() if nb in listing_after and open(os.path.join(d, nb), "rb").read() != content]
+        if touched:
+            rec.violation("file-bytes/write_metadata_to_file/neighbour-files-modified", "files other than the named one were rewritten: %s" % touched[:5], case)
+        if i < 1:
+            rec.sample({"neighbours": sorted(nbs)[:12], "named": name})
+
+
 def _discover_menu(lib, src):
     """read the interactive tool's own menu (numbers by label) from what it prints before its first prompt"""
     import builtins
@@ -576,6 +645,8 @@ def run_cli_session(spec, rec, lib):
 
 
 def run_shard(spec, rec, lib):
+    if spec.get("kind") == "neighbours":
+        return run_neighbours(spec, rec, lib)
     if spec["kind"] == "cli_session":
         return run_cli_session(spec, rec, lib)
     {"hist": run_hist, "repodata": run_repodata, "gnupg_hist": run_gnupg_hist, "values": run_values,
@@ -596,6 +667,8 @@ def replay(case, rec, lib):
     try:
         if case.get("kind") == "hist":
             run_history(case, rec, lib, d)
+        elif case.get("kind") == "neighbours":
+            run_neighbours({"seed": 1, "count": 12, "scratch": d}, rec, lib)
         elif case.get("kind") == "value":
             C = lib.common
             fn = os.path.join(d, "v.json")
